@@ -47,6 +47,7 @@ type signStats struct {
 	VerifyOK, VerifyFail, VerifyOKChanged int
 	CreateErrors, Panics                  int
 	KeyedEntries, KeyedMutations          int
+	LegacyEntries                         int
 	PayloadClasses                        map[string]int
 	IDClasses                             map[string]int
 	TimeClasses                           map[string]int
@@ -401,6 +402,37 @@ func runSign(seed int64, n int, out *bufio.Writer, thorough bool) *signStats {
 			}
 			continue
 		}
+		// a LEGACY entry (one case in five): the same content as an older peer wrote it (version 0 or 1), signed over
+		// its own bytes with the writer's key — every field of it, the references included, must be as
+		// tamper-evident as in a version-2 entry.  The companions (second entry, other writer) are legacy too.
+		legacyV := -1
+		toLegacy := func(x iface.IPFSLogEntry, ident *idp.Identity) iface.IPFSLogEntry {
+			if x == nil || legacyV < 0 {
+				return x
+			}
+			var res iface.IPFSLogEntry = x
+			func() {
+				defer func() { recover() }()
+				c := x.Copy().(*entry.Entry)
+				c.SetV(uint64(legacyV))
+				buf, err := entry.VerifToBuffer(c)
+				if err != nil {
+					return
+				}
+				sig, err := ident.Provider.Sign(ctx, ident, buf)
+				if err != nil {
+					return
+				}
+				c.SetSig(sig)
+				res = c
+			}()
+			return res
+		}
+		if h%5 == 3 {
+			legacyV = r.Intn(2)
+			e = toLegacy(e, identA)
+			st.LegacyEntries++
+		}
 		st.Entries++
 		if len(clockID) == 0 {
 			st.TimeClasses["undefined-clock"]++
@@ -419,6 +451,7 @@ func runSign(seed int64, n int, out *bufio.Writer, thorough bool) *signStats {
 		clk = e.GetClock()
 		other, _ := mk(identA, append(cloneBytes(payload), '!'))
 		sameByB, _ := mk(identB, payload)
+		other, sameByB = toLegacy(other, identA), toLegacy(sameByB, identB)
 
 		// the same content created through the link-encrypting codec (PreSign seals next/refs into two
 		// additional-data values, which are signed too); the created entry still carries them, as every
@@ -426,7 +459,7 @@ func runSign(seed int64, n int, out *bufio.Writer, thorough bool) *signStats {
 		// and verified with the keyed codec: the verdict must be the one of the plain codec (`TK` line).
 		var ek *entry.Entry
 		var ioK iface.IO
-		if h%2 == 0 {
+		if h%2 == 0 && legacyV < 0 {
 			func() {
 				defer func() { recover() }()
 				kb := make([]byte, 32)
@@ -494,7 +527,7 @@ func runSign(seed int64, n int, out *bufio.Writer, thorough bool) *signStats {
 		}
 		for k := 0; k < 24; k++ {
 			x := &entry.Entry{Payload: genString(r, signPayloadClasses[r.Intn(len(signPayloadClasses)-3)]), LogID: string(genString(r, idClasses[r.Intn(len(idClasses))])),
-				V: []uint64{0, 1, 2, 2, 2, 9, 10, 99, 100, 1 << 32, math.MaxUint64, uint64(r.Int63())}[r.Intn(12)],
+				V:     []uint64{0, 1, 2, 2, 2, 9, 10, 99, 100, 1 << 32, math.MaxUint64, uint64(r.Int63())}[r.Intn(12)],
 				Clock: entry.NewLamportClock(genString(r, "random"), []int{times[r.Intn(len(times))], int(r.Uint64()), r.Intn(100000), -r.Intn(100000)}[r.Intn(4)])}
 			for i := r.Intn(3); i > 0; i-- {
 				x.Next = append(x.Next, randCid(r))
